@@ -172,6 +172,44 @@ def style_oracle(case: dict, tmp: Path, tag: str) -> list:
     return fails
 
 
+def restyle_oracle(case: dict, tmp: Path, tag: str) -> list:
+    """A style changed after it has already been saved once: apply, save, change attributes of the same Style
+    object, save again, reopen - open document and second file must both show the values given last."""
+    from numbers_parser import Document
+    fails = []
+    first, second = case["styles"][0], case["styles"][1]
+    try:
+        doc = Document(num_rows=4, num_cols=3)
+        t = doc.sheets[0].tables[0]
+        st = doc.add_style(**style_kwargs(first))
+        t.write(1, 1, "restyled")
+        t.set_cell_style(1, 1, st)
+        t.write(2, 1, 2.5, style=st)
+        doc.save(tmp / f"{tag}_1.numbers")
+        for k, v in style_kwargs(second).items():
+            if k != "name":
+                setattr(st, k, v)
+        # a cell has one fill: giving a colour replaces an earlier image and vice versa
+        if "bg_color" in second and "bg_image" not in second:
+            st.bg_image = None
+        if "bg_image" in second and "bg_color" not in second:
+            st.bg_color = None
+        want = expected_style(second, st.name)
+        doc.save(tmp / f"{tag}_2.numbers")
+        d2 = Document(tmp / f"{tag}_2.numbers")
+        for where, tt in (("open document after the second save", t), ("second saved file", d2.sheets[0].tables[0])):
+            for (r, c) in ((1, 1), (2, 1)):
+                got = observe_style(tt.cell(r, c).style)
+                for a in ATTRS:
+                    if a in second and got[a] != want[a]:
+                        if a in FLOAT_ATTRS and float.fromhex(got[a]) == f32(float.fromhex(want[a])):
+                            continue
+                        fails.append((f"restyle-lost:{a}", f"{where}: cell({r},{c}).style.{a} = {got[a]!r}, set to {want[a]!r} after the first save"))
+    except Exception as e:  # noqa: BLE001
+        fails.append(("restyle-raises", f"{type(e).__name__}: {e}"))
+    return fails
+
+
 def style_objects(doc) -> dict:
     """How many paragraph / cell style archives the file holds."""
     m = doc._model
@@ -292,6 +330,16 @@ def run_styles(ctx: Ctx, exe):
         ctx.nontrivial(("style", json.dumps(case, sort_keys=True)))
         for sig, detail in style_oracle(case, ctx.tmp, f"st{i}"):
             ctx.oracle_fail(sig, case, detail)
+    for i in range(6 if ctx.quick else 60):
+        case = {"kind": "restyle", "styles": [gen_style(rng, 0), gen_style(rng, 1)]}
+        # image bytes enter the package only through Document.add_style (store_image): assigning a new
+        # BackgroundImage to an existing style is not a supported way to add an image, so the later values
+        # of the restyle scenario carry no image
+        case["styles"][1].pop("bg_image", None)
+        ctx.count("oracle-restyle")
+        ctx.nontrivial(("restyle", json.dumps(case, sort_keys=True)))
+        for sig, detail in restyle_oracle(case, ctx.tmp, f"rs{i}"):
+            ctx.oracle_fail(sig, case, detail)
     fixtures = ["issue-7.numbers", "test-styles.numbers", "issue-56.numbers", "test-bgcolour.numbers"]
     if not ctx.quick:
         fixtures = sorted(p.name for p in (common.REPO / "tests" / "data").glob("*.numbers"))
@@ -322,4 +370,6 @@ def search_styles(ctx: Ctx) -> list:
 def replay_case(case: dict, tmp: Path) -> list:
     if case.get("kind") == "fixture-style-read":
         return fixture_read_oracle(case["fixture"], tmp)
+    if case.get("kind") == "restyle":
+        return restyle_oracle(case, tmp, "replay")
     return style_oracle(case, tmp, "replay")
